@@ -577,21 +577,26 @@ func IncrementNumFinishedSegments(incr int, qid uint64, recsSearched uint64,
 		return
 	}
 
-	rQuery.rqsLock.Lock()
-	rQuery.finishedSegments += uint64(incr)
+	func() {
+		rQuery.rqsLock.Lock()
+		// The calls below convert the results and can panic on bad data. The panic
+		// is recovered where the query runs; the lock must be released then, or the
+		// query can never be ended.
+		defer rQuery.rqsLock.Unlock()
+		rQuery.finishedSegments += uint64(incr)
 
-	rQuery.totalRecsSearched += recsSearched
-	if rQuery.searchRes != nil {
-		rQuery.queryCount = rQuery.searchRes.GetQueryCount()
-		rQuery.rawRecords = rQuery.searchRes.GetResultsCopy()
-		if doBuckPull {
-			rQuery.searchHistogram = rQuery.searchRes.GetBucketResults()
+		rQuery.totalRecsSearched += recsSearched
+		if rQuery.searchRes != nil {
+			rQuery.queryCount = rQuery.searchRes.GetQueryCount()
+			rQuery.rawRecords = rQuery.searchRes.GetResultsCopy()
+			if doBuckPull {
+				rQuery.searchHistogram = rQuery.searchRes.GetBucketResults()
+			}
+			if sstMap != nil && rQuery.isAsync {
+				rQuery.searchRes.AddSSTMap(sstMap, skEnc)
+			}
 		}
-		if sstMap != nil && rQuery.isAsync {
-			rQuery.searchRes.AddSSTMap(sstMap, skEnc)
-		}
-	}
-	rQuery.rqsLock.Unlock()
+	}()
 
 	if rQuery.QType != structs.RRCCmd {
 		if rQuery.Progress == nil {
